@@ -247,6 +247,28 @@ def run(ctx):
                 break
             accepted_positions += 1
 
+    # ---- the default lists are computed at import time from registries other packages can write to: in a fresh interpreter
+    # in which a foreign package registered its classes first, those classes must still be reported and refused
+    import os
+    import subprocess
+    import sys as _sys
+
+    from ..common import VERIF as _VERIF
+
+    p_ = subprocess.run([_sys.executable, "-W", "ignore", "-m", "harness.c11_preimport"], cwd=str(_VERIF), capture_output=True, text=True,
+                        env=dict(os.environ, PYTHONPATH=str(_VERIF)), timeout=600)
+    preimport_cases = 0
+    try:
+        pre = json.loads(p_.stdout.strip().splitlines()[-1])
+        preimport_cases = pre["cases"]
+        for pr in pre["problems"][:3]:
+            ofails.append((f"foreign-registration-trusted: after another package registered its class with scikit-learn/numpy before "
+                           f"skops.io was imported, {pr['case']}: {pr['what']}",
+                           dict(kind="preimport", run="python -m harness.c11_preimport", **pr)))
+    except Exception:
+        ofails.append((f"harness: the pre-import interpreter failed: {p_.stderr[-300:]}", dict(kind="preimport")))
+    evaluations += preimport_cases
+
     # ---- model/implementation tie for the default lists themselves ------------------------------------------
     res = iocheck.run_engine(ctx, ctx.budget(120, 3000))
     mism = res["mismatches"]
@@ -268,6 +290,19 @@ def run(ctx):
 
 def replay(rep):
     from . import c01
+
+    if rep.get("kind") == "preimport":
+        import os
+        import subprocess
+        import sys
+
+        p = subprocess.run([sys.executable, "-W", "ignore", "-m", "harness.c11_preimport"], cwd=str(VERIF), capture_output=True, text=True,
+                           env=dict(os.environ, PYTHONPATH=str(VERIF)))
+        print(p.stdout[-3000:], p.stderr[-500:])
+        try:
+            return 1 if json.loads(p.stdout.strip().splitlines()[-1])["problems"] else 0
+        except Exception:
+            return 1
 
     if rep.get("primed_with"):
         # the failing history: earlier calls of this process trusted these names explicitly
